@@ -12,6 +12,9 @@
 //!    texts valid for another battery type U, structure-level mutations of both, token-level mutations,
 //!    random model values. Oracle: direct recogniser and via-`Value` path agree on accept/reject and on
 //!    the value. Error *messages* are never compared.
+//!  * `msgpack-hostile`, `msgpack-crafted` – the MessagePack reader on what the writer never produces
+//!    (truncations, equivalent encodings with other headers, trailing bytes, damaged markers and
+//!    lengths, hand-written inputs): see `hostile.rs`. Not run for C09.
 //!
 //! Signatures name the oracle, how it failed (direction, variant name of the error of the rejecting
 //! side with value *kinds* only) and
@@ -30,7 +33,13 @@
 
 mod battery;
 mod gen;
+mod hostile;
 mod texts;
+
+/// Counts the largest single request per thread (see `hostile`): lets the `msgpack-hostile` part see a
+/// reader that reserves what a corrupt length prefix announces.
+#[global_allocator]
+static ALLOC: hostile::WatchAlloc = hostile::WatchAlloc;
 
 use std::collections::HashMap;
 use std::fmt::Debug;
@@ -512,6 +521,13 @@ struct Entry {
     value: Box<dyn Fn(&mut Rng) -> Value + Sync>,
     /// (signature key, text, input class)
     check: Box<dyn Fn(&str, &str, &str, &mut CaseOut) -> Outcome + Sync>,
+    /// Part `msgpack-hostile` on a fresh instance; the argument is the MessagePack image of an
+    /// instance of another battery type (with that type's name).
+    hostile: Box<dyn Fn(&mut Rng, Option<(Vec<u8>, &'static str)>, &mut CaseOut) + Sync>,
+    /// MessagePack image of a fresh instance (`None` if the writer fails on it).
+    msgpack: Box<dyn Fn(&mut Rng) -> Option<Vec<u8>> + Sync>,
+    /// Part `msgpack-crafted`: the hand-written input of that index read as this type.
+    crafted: Box<dyn Fn(usize, &mut CaseOut) + Sync>,
 }
 
 impl Entry {
@@ -550,6 +566,12 @@ impl Entry {
                 guard(|| x.as_value()).unwrap_or(Value::Extant)
             }),
             check: Box::new(move |key, text, class, out| check_text::<T>(name, key, text, class, out)),
+            hostile: Box::new(move |rng, foreign, out| {
+                let x = gen(rng);
+                hostile::run::<T>(name, shape, x, foreign, rng, out)
+            }),
+            msgpack: Box::new(move |rng| hostile::write_mp(&gen(rng))),
+            crafted: Box::new(move |idx, out| hostile::crafted::<T>(name, shape, idx, out)),
         }
     }
 }
@@ -778,6 +800,38 @@ fn main() {
         (sizes::SIZES.len() * sizes::SHAPES.len()) as u64,
         |i, _rng, out| sizes::run_case(i, out),
     );
+
+    // The MessagePack reader on what the writer never produces. Judges C16 only.
+    if s.prop() != "C09" {
+        let per_type = s.args.budget(40, 1_500);
+        s.part(
+            "msgpack-hostile",
+            "one generated instance x of battery type T per case (T = case mod |battery|), written by the real MessagePack writer, then read by read_from_msg_pack::<T> and read_from_msg_pack::<Value> -> T::try_from_value from: every strict prefix of the bytes and of three re-encodings with 8/16/32-bit headers (must be rejected, never read as a different value); every single-token re-encoding with a header the writer never chooses (f32, str8/16/32, bin16/32, array16/32, map16/32, ext8/16/32, wider signed/unsigned integers) and all tokens widened at once (must be ruled on exactly as the writer's encoding); the bytes followed by trailing bytes (never a different value); 10 damaged copies (reserved/random/array markers, unknown extension types, empty big integers, lengths +-1 and up to 4 GiB, bit flips, byte insert/delete, scalars of another kind, dropped/duplicated tokens), 2 structure-mutated model images, the bytes of another battery type, hand-written inputs; on everything: no panic, no single allocator request >= 16 MiB, and the two reading paths agree on accept/reject and value; in 1 case of 4 the bytes are also read by a hand-written recogniser that completes after k = 1, 2, ... events (Ok must not leave part of the value unread); non-trivial when the harness tokeniser reproduces the writer's bytes exactly; distinct by (type, Debug image of x, damaged inputs)",
+            false,
+            per_type * n,
+            |i, rng, out| {
+                let e = &entries[(i % n) as usize];
+                let foreign = if rng.chance(1, 2) {
+                    let src = &entries[rng.usize_below(entries.len())];
+                    (src.msgpack)(rng).map(|b| (b, src.name))
+                } else {
+                    None
+                };
+                (e.hostile)(rng, foreign, out);
+            },
+        );
+        let k = hostile::crafted_len() as u64;
+        s.part(
+            "msgpack-crafted",
+            "every hand-written MessagePack input (top-level and record-level error exits: empty input, reserved marker, arrays at value position, empty/unknown/oversized extensions, str/bin/ext/array/map lengths up to 4 GiB with no data, invalid UTF-8, f32, non-text attribute names) read as every battery type: no panic, no allocator request >= 16 MiB, the two reading paths agree; and every hand-built equivalent pair (18 scalars x 5 positions - alone, delegated body, record item, attribute value, slot value - in the minimal form and in every other form that carries them): both must be ruled on alike by every battery type; exhaustive over (type, input); distinct by (type, input)",
+            true,
+            n * k,
+            |i, _rng, out| {
+                let e = &entries[(i / k) as usize];
+                (e.crafted)((i % k) as usize, out);
+            },
+        );
+    }
 
     let cases = s.args.budget(150_000, 6_000_000);
     s.part(
